@@ -36,7 +36,7 @@ func fdinfoMarks(fd int) map[uint32]uint32 { // wd -> mask
 		var wd, mask uint64
 		for _, f := range strings.Fields(l) {
 			if strings.HasPrefix(f, "wd:") {
-				wd, _ = strconv.ParseUint(f[3:], 10, 32)
+				wd, _ = strconv.ParseUint(f[3:], 16, 32)
 			}
 			if strings.HasPrefix(f, "mask:") {
 				mask, _ = strconv.ParseUint(f[5:], 16, 32)
